@@ -4,7 +4,14 @@ Histories of operations (add item / add item to a given batch / flush / cancel w
 item.value() / batch.value() / batch.error() / state queries) on one batch kind with an "active batch" slot,
 run on the real classes: a BatchBase/BatchItemBase subclass pair written here whose `_flush` interprets a
 script (set all / some / no items, set item errors, raise Exception or BaseException, issue new requests
-while flushing), and the built-in DebugBatch / DebugBatchItem.  Item callbacks may issue new requests too.
+while flushing), and the built-in DebugBatch / DebugBatchItem (also through `asynq.batching.sync`).  Items may carry
+on_computed handlers that issue new requests (`spawn`) or complete a pending sibling item (`link`, chains allowed),
+so an item can get completed by somebody else while the library walks the batch's items.  Values and errors are
+tokens for objects with unusual behaviour (None, falsy, raising __eq__/__bool__/__repr__, exceptions of classes the
+library knows, BaseException-only errors); a case may switch debug options on (KEEP_DEPENDENCIES is part of the model,
+the DUMP_* / profiling options must not change anything); batches of 17 - 300 items form a family of their own.
+The family `reenter` (a flush body or a completion handler that cancels the batch it is called from) lies outside the
+model: it is sent to the driver in mode `batchingx` and judged by the observer and a direct expectation only.
 
 The Lean model (AsynqModel.Lib.Batching) replays the same history and scripts (correspondence: result of every
 operation, every hook event in order, and a full snapshot of all batches and items after every operation) and
@@ -28,25 +35,37 @@ THEOREMS = [
     "AsynqModel.Batching.C11_item_value_flushes",
     "AsynqModel.Batching.C11_fresh_batch_during_flush",
     "AsynqModel.Batching.C11_no_item_left_pending",
+    "AsynqModel.Batching.C11_set_outcome_kept",
+    "AsynqModel.Batching.completeItem_fuel_enough",
 ]
 BUILDS = {"quick": ["py"], "thorough": ["py", "cy"]}
-RULE = ("systematic core (both batch kinds x 14 flush-script templates x 7 ways of finishing a batch, each followed by the "
-        "protocol-error probes: second flush, cancel after finish, add to finished batch, item/batch reads) plus random "
-        "histories (1-24 ops over add/addTo/flush/cancel(+-error)/item.value/batch.value/batch.error/queries, random "
-        "scripts per batch, item callbacks issuing new requests, a small stream of operations on non-existent tokens); "
+RULE = ("systematic core (both batch kinds x 14 flush-script templates x 7 ways of finishing a batch x 6 ways of filling it "
+        "- 3 of them with sibling-completing handlers: forward, backward, chain - each followed by the protocol-error "
+        "probes: second flush, cancel after finish, add to finished batch, item/batch reads); the same core under every "
+        "debug option that batching.py reads; a size family (17/40/100 items, thorough also 300, handlers on every 3rd "
+        "item); plus random histories (1-24 ops over add/addTo/flush/cancel(+-error)/item.value/batch.value/batch.error/"
+        "queries, random scripts per batch, 20 % of the items with a spawn handler, 30 % with a link handler, 8 % with "
+        "value None, 22 % of the cases under 1-3 debug options, a small stream of operations on non-existent tokens); "
+        "family reenter (systematic 11 bodies x 6 finishers x 3 fillings + 500 random histories with self-cancelling bodies "
+        "/ cancelling handlers; thorough 6000); "
         "non-trivial = a batch with at least one item finishes and the history has >= 3 operations; distinct by "
-        "(kind, scripts, history) hash")
+        "(kind, options, scripts, history) hash")
 TRUSTED = [
     "hand-written Lean model AsynqModel.Lib.Batching tied to the code by this differential run only",
     "Python harness checks/c11.py (token <-> object identity mapping, read-only snapshot after each operation, "
     "hooks: on_computed of every batch and item, the harness subclass's _flush)",
     "qcore.EventHook.safe_trigger, qcore.errors.reraise",
+    "family `reenter` (mode batchingx): the expectation written in lean/AsynqModel/Drv/Batching.lean handleX",
 ]
 ASSUMPTIONS = [
     "flush bodies are the scripted ones (set value/error of own items, create requests, raise); they do not re-enter "
-    "flush()/value() of their own or another batch and do not cancel the batch they are flushing",
-    "on_computed callbacks of items only log and issue new requests; callbacks raising are C10's subject",
-    "debug options at their defaults (KEEP_DEPENDENCIES off: flush() clears batch.items); single thread",
+    "flush()/value() of their own or another batch; cancelling the batch being flushed (from the body or from a "
+    "completion handler) happens only in the family `reenter`, which is outside the model: no theorem speaks about it, "
+    "it is judged by the observer Batching.specClause plus the direct expectation in Drv/Batching.lean handleX",
+    "on_computed handlers of items only log, issue new requests and complete pending items of the SAME batch; handlers "
+    "that raise are C10's subject; handlers that re-enter flush()/cancel()/value() of a batch are not generated",
+    "of the debug options only KEEP_DEPENDENCIES exists in the model; DUMP_FLUSH_BATCH, DUMP_STACK, DUMP_SYNC, "
+    "DUMP_COMPUTED, DUMP_DEPENDENCIES, COLLECT_PERF_STATS are expected to change nothing observable; single thread",
     "for DebugBatch the flush body itself cannot be hooked through public API: its runs are observed through the "
     "item completions only (run counter fixed to 0)",
 ]
@@ -91,6 +110,17 @@ def gen_script(rng):
     return acts
 
 
+OPTS = ["KEEP_DEPENDENCIES", "DUMP_FLUSH_BATCH", "DUMP_STACK", "DUMP_SYNC", "DUMP_COMPUTED", "DUMP_DEPENDENCIES",
+        "COLLECT_PERF_STATS"]
+
+
+def gen_link(rng):
+    """[target item (global creation index), is_error, token]"""
+    if rng.random() < 0.3:
+        return [rng.choice([0, 0, 1, 1, 2, 2, 3, 4, 5, 7]), 1, rng.randint(1, 8)]
+    return [rng.choice([0, 0, 1, 1, 2, 2, 3, 4, 5, 7]), 0, rng.randint(0, 9)]
+
+
 def gen_op(rng):
     w = rng.choices(
         ["add", "addTo", "flush", "cancel", "itemValue", "batchValue", "batchError",
@@ -100,7 +130,8 @@ def gen_op(rng):
     if rng.random() < 0.01:
         k = 1000 + rng.randint(0, 50)  # malformed stream: a token that does not exist
     if w == "add":
-        return [w, rng.randint(1, 9), rng.randint(1, 9) if rng.random() < 0.25 else None]
+        return [w, 0 if rng.random() < 0.08 else rng.randint(1, 9), rng.randint(1, 9) if rng.random() < 0.2 else None,
+                gen_link(rng) if rng.random() < 0.3 else None]
     if w == "addTo":
         return [w, k, rng.randint(1, 9)]
     if w == "cancel":
@@ -110,8 +141,13 @@ def gen_op(rng):
 
 def gen_case(rng, size=None):
     n = size if size is not None else rng.choice([1, 2, 3, 4, 5, 6, 8, 10, 12, 16, 20, 24])
-    return {"kind": rng.choice(KINDS), "scripts": [gen_script(rng) for _ in range(rng.choice([1, 2, 3, 6]))],
-            "ops": [gen_op(rng) for _ in range(n)]}
+    c = {"kind": rng.choice(KINDS), "scripts": [gen_script(rng) for _ in range(rng.choice([1, 2, 3, 6]))],
+         "ops": [gen_op(rng) for _ in range(n)]}
+    if rng.random() < 0.22:
+        c["opts"] = sorted(rng.sample(OPTS, rng.choice([1, 1, 2, 3])))
+    if c["kind"] == "debug":
+        c["pre"] = rng.choice(["flush", "flush", "cancel", "value"])
+    return c
 
 
 def corpus():
@@ -133,49 +169,159 @@ PROBES = [["itemComputed", 0], ["itemValue", 0], ["itemValue", 1], ["itemValue",
           ["batchError", 1], ["add", 8, None], ["isFlushed", 0], ["itemValue", 0], ["flush", 1], ["flush", 0], ["flush", 1]]
 
 
+ADDS = [
+    [["add", 1, None, None], ["add", 2, 9, None], ["add", 3, None, None]],
+    [["add", 1, 2, None]],
+    [],
+    # handlers that complete a sibling: forward (an earlier item completes a later one) ...
+    [["add", 1, None, [1, 0, 5]], ["add", 2, 9, None], ["add", 0, None, None]],
+    # ... backward (a later item completes an earlier one: fires when the later one is completed first) ...
+    [["add", 1, None, None], ["add", 2, None, [0, 1, 2]], ["add", 3, None, [1, 0, 0]]],
+    # ... and a chain 0 -> 1 -> 2 -> 0 with a request issued on the way
+    [["add", 1, None, [1, 0, 4]], ["add", 2, None, [2, 1, 6]], ["add", 3, 4, [0, 0, 7]], ["add", 5, None, None]],
+]
+
+
+def _case(kind, t, fin, adds, opts=None, pre=None):
+    # the batch created while the first one is flushed gets the same script
+    c = {"kind": kind, "scripts": [[list(a) for a in t], [list(a) for a in t], [["setAll"]]],
+         "ops": [list(o) for o in adds] + [list(fin)] + [list(o) for o in PROBES]}
+    if opts:
+        c["opts"] = list(opts)
+    if pre:
+        c["pre"] = pre
+    return c
+
+
 def systematic():
     cases = []
     for kind in KINDS:
         for t in TEMPLATES if kind == "user" else [TEMPLATES[0]]:
             for fin in FINISHERS:
-                for adds in ([["add", 1, None], ["add", 2, 9], ["add", 3, None]], [["add", 1, 2]], []):
-                    # the batch created while the first one is flushed gets the same script
-                    cases.append({"kind": kind, "scripts": [[list(a) for a in t], [list(a) for a in t], [["setAll"]]],
-                                  "ops": [list(o) for o in adds] + [list(fin)] + [list(o) for o in PROBES]})
+                for adds in ADDS:
+                    cases.append(_case(kind, t, fin, adds))
+    # the same core under every debug option batching.py (and the futures under it) reads, one at a time and KEEP + DUMP
+    for opts in [[o] for o in OPTS] + [["DUMP_FLUSH_BATCH", "KEEP_DEPENDENCIES"], list(OPTS)]:
+        for kind in KINDS:
+            for t in ([TEMPLATES[0], TEMPLATES[1], TEMPLATES[3], TEMPLATES[8], TEMPLATES[11]] if kind == "user"
+                      else [TEMPLATES[0]]):
+                for fin in (FINISHERS[0], FINISHERS[1], FINISHERS[4]):
+                    for adds in (ADDS[0], ADDS[3]):
+                        cases.append(_case(kind, t, fin, adds, opts, "cancel" if kind == "debug" else None))
+    return cases
+
+
+def sized(tier):
+    """SIZE matters: batches of n items (every 3rd with a handler completing the next item, every 7th issuing a request)"""
+    cases = []
+    for n in ([17, 40, 100] if tier == "quick" else [17, 33, 64, 100, 300]):
+        adds = [["add", 1 + i % 9, (1 + i % 5) if i % 7 == 6 else None,
+                 [i + 1, i % 2, 1 + i % 8] if i % 3 == 0 else None] for i in range(n)]
+        probes = [["itemValue", 0], ["itemValue", n - 1], ["itemValue", n // 2], ["flush", 1], ["cancel", 1, 2],
+                  ["addTo", 1, 3], ["isEmpty", 1], ["batchError", 1], ["flush", 0], ["itemComputed", n + 1]]
+        for kind in KINDS:
+            for t in ([[["setAll"]], [], [["raise", 2]], [["setValue", 0, 1], ["setValue", n - 1, 2], ["raise", 5]],
+                       [["setValue", n - 2, 3], ["setError", 16, 1]]] if kind == "user" else [[]]):
+                for fin in (["flush", 0], ["cancel", 0, None], ["cancel", 0, 7], ["itemValue", 0], ["batchValue", 0]):
+                    c = {"kind": kind, "scripts": [t, [["setAll"]]], "ops": adds + [fin] + probes, "fam": "size%d" % n}
+                    if n == 40:
+                        c["opts"] = ["KEEP_DEPENDENCIES"]
+                    cases.append(c)
+    return cases
+
+
+RE_TEMPLATES = [
+    [["cancelSelf", None]],
+    [["cancelSelf", 3]],
+    [["setValue", 0, 1], ["cancelSelf", 2], ["setValue", 1, 2]],
+    [["cancelSelf", 6], ["raise", 1]],
+    [["setAll"], ["cancelSelf", None]],
+    [["cancelSelf", 1], ["cancelSelf", 2]],
+    [["newItem", 4], ["cancelSelf", 8], ["newItem", 5]],
+    [["setValue", 0, 1]],       # with a cancelling handler on item 0: the handler cancels while the body runs
+    [],                         # ... the handler runs while _computed completes the leftovers: cancel() is a no-op
+    [["raise", 5]],
+    [["setError", 1, 2], ["setAll"]],
+]
+RE_ADDS = [
+    [["add", 1, None, None, 0], ["add", 2, None, None], ["add", 3, None, None]],
+    [["add", 1, None, [1, 0, 5], 4], ["add", 2, 9, None, 0], ["add", 0, None, None]],
+    [["add", 1, None, None], ["add", 2, None, None, 7], ["add", 3, None, [0, 1, 2]]],
+]
+
+
+def reenter(tier, rng):
+    """family `reenter`: the flush body / a completion handler cancels the very batch it is called from"""
+    cases = []
+    for kind in KINDS:
+        for t in RE_TEMPLATES if kind == "user" else [[]]:
+            for fin in (FINISHERS[0], FINISHERS[1], FINISHERS[3], FINISHERS[4], FINISHERS[5], FINISHERS[6]):
+                for adds in RE_ADDS:
+                    c = _case(kind, t, fin, adds)
+                    c["fam"] = "reenter"
+                    cases.append(c)
+    for _ in range(500 if tier == "quick" else 6000):
+        c = gen_case(rng)
+        c["fam"] = "reenter"
+        for sc in c["scripts"]:
+            if rng.random() < 0.5:
+                sc.insert(rng.randint(0, len(sc)), ["cancelSelf", rng.choice([None, None, 1, 2, 3, 5, 8])])
+        for op in c["ops"]:
+            if op[0] == "add" and rng.random() < 0.3:
+                op.append(rng.choice([0, 0, 1, 2, 4, 6, 8]))
+        cases.append(c)
     return cases
 
 
 def plan(tier, seed):
     rng = random.Random(seed * 1000003 + 11)
     n = 6000 if tier == "quick" else 60000
-    cases = corpus() + systematic()
+    cases = corpus() + systematic() + sized(tier)
     cases += [gen_case(rng) for _ in range(n)]
+    cases += reenter(tier, random.Random(seed * 1000003 + 1111))
     return cases
+
+
+def _with(case, **kw):
+    c = {k: v for k, v in case.items() if k != "id"}
+    c.update(kw)
+    return c
 
 
 def shrink(case):
     ops, scripts = case["ops"], case["scripts"]
+    if case.get("opts"):
+        for o in case["opts"]:
+            yield _with(case, opts=[x for x in case["opts"] if x != o])
     for i in range(len(ops)):
-        yield {"kind": case["kind"], "scripts": scripts, "ops": ops[:i] + ops[i + 1:]}
+        yield _with(case, ops=ops[:i] + ops[i + 1:])
     for j in range(len(scripts)):
         if scripts[j]:
             for i in range(len(scripts[j])):
                 s2 = [list(map(list, s)) for s in scripts]
                 del s2[j][i]
-                yield {"kind": case["kind"], "scripts": s2, "ops": ops}
+                yield _with(case, scripts=s2)
     if len(scripts) > 1:
-        yield {"kind": case["kind"], "scripts": scripts[:-1], "ops": ops}
+        yield _with(case, scripts=scripts[:-1])
     for i, op in enumerate(ops):
-        if op[0] == "add" and op[2] is not None:
-            o2 = [list(o) for o in ops]
-            o2[i][2] = None
-            yield {"kind": case["kind"], "scripts": scripts, "ops": o2}
+        if op[0] == "add":
+            if len(op) > 4:
+                o2 = [list(o) for o in ops]
+                o2[i] = o2[i][:4]
+                yield _with(case, ops=o2)
+            for pos in (2, 3):
+                if len(op) > pos and op[pos] is not None:
+                    o2 = [list(o) for o in ops]
+                    o2[i][pos] = None
+                    yield _with(case, ops=o2)
 
 
 def neighbours(case, rng):
     for k in KINDS:
         if k != case["kind"]:
-            yield {"kind": k, "scripts": case["scripts"], "ops": case["ops"]}
+            yield _with(case, kind=k)
+    if case.get("opts"):
+        yield _with(case, opts=[])
     for _ in range(30):
         ops = [list(o) for o in case["ops"]]
         scripts = [[list(a) for a in s] for s in case["scripts"]]
@@ -188,7 +334,7 @@ def neighbours(case, rng):
             scripts[rng.randrange(len(scripts))] = gen_script(rng)
         else:
             ops.append(["itemValue", rng.randint(0, 3)])
-        yield {"kind": case["kind"], "scripts": scripts, "ops": ops}
+        yield _with(case, scripts=scripts, ops=ops)
 
 
 def signature(case, v):
@@ -197,6 +343,10 @@ def signature(case, v):
 
 def _sx(x):
     return "none" if x is None else str(x)
+
+
+def _lx(l):
+    return "none" if l is None else "(link %d %d %d)" % (l[0], l[1], l[2])
 
 
 def script_sexp(scripts):
@@ -208,6 +358,10 @@ def script_sexp(scripts):
 # implementation side
 # ---------------------------------------------------------------------------------------------------
 
+class HarnessBug(Exception):
+    pass
+
+
 class UserErr(Exception):
     pass
 
@@ -216,31 +370,73 @@ class UserBase(BaseException):
     pass
 
 
+def _no(*a, **k):
+    raise RuntimeError("the library has no business calling this")
+
+
+class FalsyErr(Exception):
+    """an Exception that is falsy, has no length, and refuses ==, hash() and repr()"""
+    __bool__ = lambda self: False
+    __len__ = lambda self: 0
+    __eq__ = _no
+    __ne__ = _no
+    __hash__ = _no
+    __repr__ = _no
+    __str__ = _no
+
+
+class FalsyBase(BaseException):
+    __bool__ = lambda self: False
+    __len__ = lambda self: 0
+    __eq__ = _no
+    __ne__ = _no
+
+
+class Weird(object):
+    """a value that refuses bool(), ==, hash() and repr()"""
+    __bool__ = _no
+    __len__ = _no
+    __eq__ = _no
+    __ne__ = _no
+    __hash__ = _no
+    __repr__ = _no
+    __str__ = _no
+
+
+class EmptyList(list):
+    __eq__ = _no
+    __ne__ = _no
+
+
 _serial = [0]
 
 
 def run_case(case):
+    import asynq
     from asynq import batching, futures
 
     kind = case["kind"]
     scripts = case["scripts"] if kind == "user" else []
-    vals = {0: None}
-    for p in range(1, 10):
-        vals[p] = ("v", p)  # unique objects
-    errs = {}
-    for n in range(1, 5):
-        errs[n] = UserErr("e%d" % n)
-    for n in range(5, 9):
-        errs[n] = UserBase("b%d" % n)
+    opts = list(case.get("opts") or [])
+    keep = "KEEP_DEPENDENCIES" in opts
+    # value / error tokens -> objects; identity is what is compared, never equality
+    vals = {0: None, 1: ("v", 1), 2: 0, 3: "", 4: Weird(), 5: False, 6: EmptyList(), 7: ValueError("a value"),
+            8: float("nan"), 9: asynq.ConstFuture(("v", 9))}
+    errs = {1: UserErr("e1"), 2: FalsyErr("e2"),
+            3: futures.FutureIsAlreadyComputed("a user's own"),    # classes the library raises / catches itself
+            4: batching.BatchCancelledError("a user's own"),
+            5: UserBase("b5"), 6: KeyboardInterrupt("b6"), 7: SystemExit(7), 8: FalsyBase("b8")}
     val_tok = {id(v): k for k, v in vals.items() if v is not None}
     err_tok = {id(e): k for k, e in errs.items()}
 
     events = []
     batches, btoks = [], {}      # token -> object (kept alive), id(object) -> token
     items, itoks = [], {}
-    payload, spawn = [], []      # per item token (side tables: compiled classes take no new attributes)
+    payload, spawn, links, recs = [], [], [], []   # per item token (side tables: compiled classes take no new attributes)
+    reenter_fam = case.get("fam") == "reenter"
+    xlines = []
     flag = {"in_set": False}
-    stats = {"during": 0}
+    stats = {"during": 0, "linked": 0}
 
     def vt(v):
         if v is None:
@@ -302,6 +498,44 @@ def run_case(case):
                 make_item(None, spawn[i], None, src)
             except AssertionError:
                 events.append("(createFail %d)" % src)
+        lk = links[i]
+        if lk is not None and lk[0] < len(items):
+            tgt = items[lk[0]]
+            # complete a sibling that is still pending (a "derived" item): public API only
+            if tgt.batch is it.batch and not tgt.is_computed():
+                stats["linked"] += 1
+                prev = flag["in_set"]
+                flag["in_set"] = True
+                try:
+                    if lk[1]:
+                        tgt.set_error(errs[lk[2]])
+                    else:
+                        tgt.set_value(vals[lk[2]])
+                finally:
+                    flag["in_set"] = prev
+        if recs[i] is not None:
+            recancel(it.batch, recs[i] or None)
+
+    def recancel(b, e):
+        """family `reenter`: cancel the batch from inside its own flush body / from a completion handler of its item"""
+        t = btok(b)
+        was = not b.is_computed()
+        prev = flag["in_set"]
+        flag["in_set"] = False       # whatever gets completed now is completed by the library
+        raised = 0
+        try:
+            if e is None:
+                b.cancel()
+            else:
+                b.cancel(errs[e])
+        except BaseException as ex:
+            if type(ex).__name__ == "CaseTimeout":
+                raise
+            raised = 1
+        finally:
+            flag["in_set"] = prev
+        stats["recancel"] = stats.get("recancel", 0) + (1 if was else 0)
+        xlines.append("(x cancel %d %s %d %d)" % (t, _sx(e), 1 if was else 0, raised))
 
     if kind == "user":
         class Service(object):
@@ -337,6 +571,8 @@ def run_case(case):
                         make_item(None, a[1], None, t)
                     elif a[0] == "raise":
                         raise errs[a[1]]
+                    elif a[0] == "cancelSelf" and reenter_fam:
+                        recancel(self, a[1])
                     else:
                         raise ValueError(a)
 
@@ -358,9 +594,17 @@ def run_case(case):
             return b.flush_count
     else:
         _serial[0] += 1
-        name = "c11-%d-%d" % (case.get("id", 0), _serial[0])
-        # bring the service's slot into existence with public API only: a throw-away request and its flush
-        batching.DebugBatchItem(name).batch.flush()
+        tag = "c11-%d-%d" % (case.get("id", 0), _serial[0])
+        name = "sync-" + tag     # the name asynq.batching.sync(tag) uses
+        # bring the service's slot into existence with public API only: a throw-away request that is flushed,
+        # cancelled, or asked for its value (what an earlier computation on this thread leaves behind)
+        pre = case.get("pre", "flush")
+        if pre == "cancel":
+            batching.DebugBatchItem(name).batch.cancel()
+        elif pre == "value":
+            batching.sync(tag).value()
+        else:
+            batching.DebugBatchItem(name).batch.flush()
 
         class RawItem(batching.BatchItemBase):
             def __init__(self, batch, result):
@@ -372,6 +616,10 @@ def run_case(case):
 
         def construct(batch, p):
             if batch is None:
+                if p == 0:
+                    return batching.sync(tag)      # the public entry point: DebugBatchItem("sync-" + tag), result None
+                if p % 2:
+                    return batching.DebugBatchItem(batch_name=name, result=vals[p])   # the keyword spelling
                 return batching.DebugBatchItem(name, vals[p])
             return RawItem(batch, vals[p])
 
@@ -392,7 +640,7 @@ def run_case(case):
         a = get_active()
         return UNKNOWN if a is None else btok(a)
 
-    def make_item(batch, p, sp, src):
+    def make_item(batch, p, sp, src, lk=None, rec=None):
         it = construct(batch, p)
         if src is not None:
             stats["during"] += 1
@@ -401,6 +649,8 @@ def run_case(case):
         itoks[id(it)] = i
         payload.append(p)
         spawn.append(sp)
+        links.append(lk)
+        recs.append(rec if reenter_fam else None)
         events.append("(created %d %d %s)" % (i, btok(it.batch), _sx(src)))
         it.on_computed.subscribe(lambda _it, i=i: on_item(i))
         return i
@@ -408,7 +658,7 @@ def run_case(case):
     def snapshot():
         a = see_active()
         bs = " ".join("(B %s (%s) %d)" % (peek(b), " ".join(str(itok(x)) for x in b.items), runs_of(b)) for b in batches)
-        its = " ".join("(I %d %d %s %s)" % (btok(it.batch), payload[i], _sx(spawn[i]), peek(it, it))
+        its = " ".join("(I %d %d %s %s %s)" % (btok(it.batch), payload[i], _sx(spawn[i]), _lx(links[i]), peek(it, it))
                        for i, it in enumerate(items))
         return "(st %d (batches %s) (items %s))" % (a, bs, its)
 
@@ -419,88 +669,132 @@ def run_case(case):
             return 0
         return n - 1 - (k % n)
 
-    see_active()
-    lines = ["(case batching %d %s %s)" % (case["id"], kind, script_sexp(scripts))]
+    # debug options: a configuration, set before the history starts and restored afterwards
+    dbg = asynq.debug.options
+    saved = {}
+    sink = None
+    try:
+        import io
+        sink = (asynq.debug, asynq.debug.stdout)
+        asynq.debug.stdout = io.StringIO()      # the DUMP_* options write there; keep it out of the worker's pipe
+    except Exception:
+        sink = None
     finished_with_items = 0
-    for op in case["ops"]:
-        del events[:]
-        name_ = op[0]
-        nb, ni = len(batches), len(items)
-        before = [b.is_computed() for b in batches]
-        try:
-            if name_ == "add":
-                rop = "(add %d %s)" % (op[1], _sx(op[2]))
-                res = "(created %d)" % make_item(None, op[1], op[2], None)
-            elif name_ == "addTo":
-                b = resolve(op[1], nb)
-                rop = "(addTo %d %d)" % (b, op[2])
-                res = "(invalid)" if b >= nb else "(created %d)" % make_item(batches[b], op[2], None, None)
-            elif name_ in ("itemValue", "itemComputed"):
-                i = resolve(op[1], ni)
-                rop = "(%s %d)" % (name_, i)
-                if i >= ni:
-                    res = "(invalid)"
-                elif name_ == "itemComputed":
-                    res = "(bool %d)" % (1 if items[i].is_computed() else 0)
-                else:
-                    v = items[i].value()
-                    res = "(ok %d)" % vt(v) if vt(v) != UNKNOWN else "(marker)"
-            else:
-                b = resolve(op[1], nb)
-                rop = "(cancel %d %s)" % (b, _sx(op[2])) if name_ == "cancel" else "(%s %d)" % (name_, b)
-                if b >= nb:
-                    res = "(invalid)"
-                elif name_ == "flush":
-                    batches[b].flush()
-                    res = "(unit)"
-                elif name_ == "cancel":
-                    if op[2] is None:
-                        batches[b].cancel()
+    try:
+        for o in opts:
+            saved[o] = getattr(dbg, o)
+            setattr(dbg, o, True)
+        see_active()
+        if reenter_fam:
+            lines = ["(case batchingx %d %s (keep %d))" % (case["id"], kind, 1 if keep else 0)]
+        else:
+            lines = ["(case batching %d %s (keep %d) %s)" % (case["id"], kind, 1 if keep else 0, script_sexp(scripts))]
+        for op in case["ops"]:
+            del events[:]
+            name_ = op[0]
+            nb, ni = len(batches), len(items)
+            before = [b.is_computed() for b in batches]
+            try:
+                if name_ == "add":
+                    lk = op[3] if len(op) > 3 else None
+                    rop = "(add %d %s %s)" % (op[1], _sx(op[2]), _lx(lk))
+                    res = "(created %d)" % make_item(None, op[1], op[2], None, lk, op[4] if len(op) > 4 else None)
+                elif name_ == "addTo":
+                    b = resolve(op[1], nb)
+                    rop = "(addTo %d %d)" % (b, op[2])
+                    res = "(invalid)" if b >= nb else "(created %d)" % make_item(batches[b], op[2], None, None)
+                elif name_ in ("itemValue", "itemComputed"):
+                    i = resolve(op[1], ni)
+                    rop = "(%s %d)" % (name_, i)
+                    if i >= ni:
+                        res = "(invalid)"
+                    elif name_ == "itemComputed":
+                        res = "(bool %d)" % (1 if items[i].is_computed() else 0)
                     else:
-                        batches[b].cancel(errs[op[2]])
-                    res = "(unit)"
-                elif name_ == "batchValue":
-                    v = batches[b].value()
-                    res = "(ok %d)" % vt(v) if vt(v) != UNKNOWN else "(marker)"
-                elif name_ == "batchError":
-                    e = batches[b].error()
-                    res = "(errIs none)" if e is None else "(errIs %s)" % et(e)
-                elif name_ == "isFlushed":
-                    res = "(bool %d)" % (1 if batches[b].is_flushed() else 0)
-                elif name_ == "isCancelled":
-                    res = "(bool %d)" % (1 if batches[b].is_cancelled() else 0)
-                elif name_ == "isEmpty":
-                    res = "(bool %d)" % (1 if batches[b].is_empty() else 0)
+                        v = items[i].value()
+                        res = "(ok %d)" % vt(v) if vt(v) != UNKNOWN else "(marker)"
                 else:
-                    raise ValueError(name_)
-        except BaseException as e:  # the outcome of the operation, not a harness failure
-            if type(e).__name__ == "CaseTimeout" or isinstance(e, (ValueError, KeyError, IndexError, TypeError)):
-                raise
-            res = "(raised %s)" % et(e)
-        snap = snapshot()
-        for t, was in enumerate(before):
-            if not was and batches[t].is_computed() and any(it.batch is batches[t] for it in items):
-                finished_with_items += 1
-        lines.append("(obs %s %s (%s) %s)" % (rop, res, " ".join(events), snap))
-    lines.append("(end)")
+                    b = resolve(op[1], nb)
+                    rop = "(cancel %d %s)" % (b, _sx(op[2])) if name_ == "cancel" else "(%s %d)" % (name_, b)
+                    if b >= nb:
+                        res = "(invalid)"
+                    elif name_ == "flush":
+                        batches[b].flush()
+                        res = "(unit)"
+                    elif name_ == "cancel":
+                        if op[2] is None:
+                            if len(lines) % 2:
+                                batches[b].cancel()
+                            else:
+                                batches[b].cancel(error=None)      # the keyword spelling, explicit default
+                        elif len(lines) % 2:
+                            batches[b].cancel(errs[op[2]])
+                        else:
+                            batches[b].cancel(error=errs[op[2]])
+                        res = "(unit)"
+                    elif name_ == "batchValue":
+                        v = batches[b].value()
+                        res = "(ok %d)" % vt(v) if vt(v) != UNKNOWN else "(marker)"
+                    elif name_ == "batchError":
+                        e = batches[b].error()
+                        res = "(errIs none)" if e is None else "(errIs %s)" % et(e)
+                    elif name_ == "isFlushed":
+                        res = "(bool %d)" % (1 if batches[b].is_flushed() else 0)
+                    elif name_ == "isCancelled":
+                        res = "(bool %d)" % (1 if batches[b].is_cancelled() else 0)
+                    elif name_ == "isEmpty":
+                        res = "(bool %d)" % (1 if batches[b].is_empty() else 0)
+                    else:
+                        raise HarnessBug(name_)
+            except BaseException as e:  # the outcome of the operation, not a harness failure
+                if type(e).__name__ == "CaseTimeout" or isinstance(e, HarnessBug):
+                    raise
+                res = "(raised %s)" % et(e)
+            snap = snapshot()
+            for t, was in enumerate(before):
+                if not was and batches[t].is_computed() and any(it.batch is batches[t] for it in items):
+                    finished_with_items += 1
+            lines.append("(obs %s %s (%s) %s)" % (rop, res, " ".join(events), snap))
+        lines += xlines
+        lines.append("(end)")
+    finally:
+        for o, v in saved.items():
+            setattr(dbg, o, v)
+        if sink is not None:
+            sink[0].stdout = sink[1]
+        if "COLLECT_PERF_STATS" in opts:
+            try:
+                asynq.profiler.reset()
+            except Exception:
+                pass
 
     text = "\n".join(lines)
     feats = ["kind=" + kind, "len<=%d" % next(b for b in (1, 3, 8, 16, 24, 10**9) if len(case["ops"]) <= b)]
     feats += sorted({"op=" + o[0] for o in case["ops"]})
+    feats += ["opt=" + o for o in opts] or ["opt=none"]
+    if case.get("fam"):
+        feats.append("fam=" + case["fam"])
+    if case.get("pre"):
+        feats.append("pre=" + case["pre"])
     if kind == "user":
         feats += sorted({"act=" + a[0] for s in scripts for a in s})
     for key, needle in (("second-flush-raises", "(raised batching)"), ("add-after-finish-raises", "(raised assertAdd)"),
                         ("item-not-set", "(err notSet)"), ("item-error-from-batch", "(err (user"),
                         ("cancelled-default", "(err cancelled)"), ("double-set-in-body", "(err already)"),
                         ("invalid-token", "(invalid)"), ("value-raises", "(raised (user"),
-                        ("announce", "(announce "), ("body", "(body ")):
+                        ("value-none", "(ok 0)"), ("announce", "(announce "), ("body", "(body ")):
         if needle in text:
             feats.append("seen=" + key)
     if stats["during"]:
         feats.append("seen=request-during-flush")
+    if any(o[0] == "add" and len(o) > 3 and o[3] is not None for o in case["ops"]):
+        feats.append("link-handlers=yes")
+    feats.append("sibling-completed-by-handler=%d" % min(stats["linked"], 3))
+    if reenter_fam:
+        feats.append("reentrant-cancel-of-pending-batch=%d" % min(stats.get("recancel", 0), 3))
     feats.append("batches=%d" % min(len(batches), 6))
     feats.append("finished-with-items=%d" % min(finished_with_items, 3))
     nontrivial = None
     if finished_with_items >= 1 and len(case["ops"]) >= 3:
-        nontrivial = hashlib.sha1(json.dumps([kind, scripts, case["ops"]]).encode()).hexdigest()[:16]
+        nontrivial = hashlib.sha1(json.dumps([kind, opts, scripts, case["ops"]]).encode()).hexdigest()[:16]
     return {"lines": lines, "features": feats, "nontrivial": nontrivial}
